@@ -43,6 +43,7 @@ def histStep (pool : List (Option BDoc)) (streaming : Bool) (st : HState) (op : 
     match pool.getD (idxOf op) none with
     | none => push st.c st.w "merr"
     | some d => push (st.c.setMetadata d) st.w "mok"
+  | some 'M' => push st.c st.w "merr"      -- metadata the collector cannot read: refused, nothing changes
   | some 'i' => let (m, s) := st.c.info; push st.c st.w s!"I{m},{s}"
   | _ => push st.c st.w "bad-op"
 
